@@ -213,7 +213,7 @@ def lit_fraction(lit):
         a, b = m.split(".")
     else:
         a, b = m, ""
-    ee = max(-5000, min(5000, e - len(b)))      # beyond this every comparison made here is already decided
+    ee = max(-200000, min(200000, e - len(b)))  # beyond this every comparison made here is already decided
     v = Fraction(int((a + b) or "0"), 1) * Fraction(10) ** ee
     return -v if neg else v
 
